@@ -432,7 +432,10 @@ def run_impl(case):
                     op['ts'] = [norm_spec(t, volvals) for t in op['ts']]
                 if op['op'] == 'setrdef' and not isinstance(op['r'], int):
                     op['r'] = ['v', volvals.setdefault(op['r'][2], op['r'][1]), op['r'][2]]
-                keep.extend(n for n, _ in _live(root))
+                live = _live(root)
+                if len(live) > 120:      # histories that blow the tree up (copying the root into itself) are cut here
+                    break
+                keep.extend(n for n, _ in live)
                 rop, out, eq = apply_op(env, root, op)
                 steps.append({'op': rop, 'out': out, 'eq': eq, 'tree': observe(root)})
             return {'init': init, 'steps': steps}
@@ -575,9 +578,13 @@ def classify(case, obs):
     if ff is None:
         return None
     i, why = ff
-    if obs['steps'][i]['op']['op'] == 'roll' and why.startswith('I1'):
-        return 'roll-private-fields'
+    if obs['steps'][i]['op']['op'] == 'roll' and why.startswith('I1') and _has_inner_wf(obs['steps'][i - 1]['tree']):
+        return 'roll-inner-waveform'
     return None
+
+
+def _has_inner_wf(t):
+    return (bool(t['c']) and t['wf'] is not None and t['wf'][0] == 'c') or any(_has_inner_wf(c) for c in t['c'])
 
 
 def py_spec(case, obs):
